@@ -66,6 +66,16 @@ fn coeff_strategy() -> BoxedStrategy<Vec<f64>> {
         1 => (1usize..5, gen::moderate(40)).prop_map(|(j, c)| { let mut v = vec![0.0; 6]; v[j] = if c == 0.0 { 1.0 } else { c }; v }),
         // all comparable
         1 => vec(gen::scaled(-2, 2), 6),
+        // COMPOSITION: the form as the library itself produces it from an integrand p0..p4 (with structured
+        // zeros), via Log<Poly4>::indefinite() or ::integral(knot) - e.g. u == 24·c4 bit for bit when p4 == 0
+        2 => (gen::coeffs(5, 20), any::<bool>(), gen::scaled_pos(-2, 2), gen::moderate(8)).prop_map(|(p, anchored, kx, ky)| {
+            let l = Log(Poly4([p[0], p[1], p[2], p[3], p[4]]));
+            let f = crate::runner::lib(|| if anchored { l.integral(Knot::new(kx, ky)) } else { l.indefinite() });
+            match f {
+                Ok(f) if f.k.is_finite() && f.u.is_finite() && f.coeffs.iter().all(|c| c.is_finite()) => vec![f.k, f.coeffs[0], f.coeffs[1], f.coeffs[2], f.coeffs[3], f.u],
+                _ => vec![0.0, 0.0, 0.0, 0.0, 0.0, 1.0],
+            }
+        }),
         // k and u only
         1 => (gen::moderate(20), gen::moderate(20)).prop_map(|(k, u)| vec![k, 0.0, 0.0, 0.0, 0.0, u]),
     ]
@@ -141,7 +151,7 @@ impl Prop for C10 {
         "C10"
     }
     fn rule(&self) -> String {
-        "case = ((k,c1..c4,u): random with exponents up to ±60 and zeros, the 45 benchmark pieces of the repository, u only, one c_j only, all comparable, k and u only; all six numbers times a common power of two 2^k (k=0 in 70% of cases, else uniform in ±250); v>0: every float within ±4096 ulps of 1, of e^1.71 and of e^-1.72 (the two switch points), e^-x for x swept over [-40,40] in steps of 1e-3, |x| = 2^-j down to 2^-70, v in [0.8,1.2] in steps of 1e-6, v = 1 ± m·2^-j for j up to 58, |x| up to 708, full-range v, MIN_POSITIVE, MAX, a few subnormal v). Oracle: x = -ln v and x^5R(x) in 384-bit arithmetic (series for |x|<2, e^x minus the 5-term Taylor polynomial otherwise; the two are compared in the self-test); |fl - E| <= 1e-12·(|k| + Σ|v c_j x^j| + |u v x^5R|); at v = 1 the value must be exactly k. Domain: magnitude sum within 2^±900 (else counted as excluded). Inputs matching the signature of the open known finding KF1 (e^x overflows, i.e. v < 5.5627e-309, or an unscaled term |c_j x^j|, |u x^5R(x)| >= 2^1020) are excluded and counted while it is listed. Non-trivial: u != 0 and v != 1. Thorough: additionally the complete ±4096-ulp neighbourhoods of the three special points for 32 coefficient sets.".into()
+        "case = ((k,c1..c4,u): random with exponents up to ±60 and zeros, the 45 benchmark pieces of the repository, u only, one c_j only, all comparable, k and u only, forms produced by the library itself from an integrand with structured zeros (Log<Poly4>::indefinite / integral); all six numbers times a common power of two 2^k (k=0 in 70% of cases, else uniform in ±250); v>0: every float within ±4096 ulps of 1, of e^1.71 and of e^-1.72 (the two switch points), e^-x for x swept over [-40,40] in steps of 1e-3, |x| = 2^-j down to 2^-70, v in [0.8,1.2] in steps of 1e-6, v = 1 ± m·2^-j for j up to 58, |x| up to 708, full-range v, MIN_POSITIVE, MAX, a few subnormal v). Oracle: x = -ln v and x^5R(x) in 384-bit arithmetic (series for |x|<2, e^x minus the 5-term Taylor polynomial otherwise; the two are compared in the self-test); |fl - E| <= 1e-12·(|k| + Σ|v c_j x^j| + |u v x^5R|); at v = 1 the value must be exactly k. Domain: magnitude sum within 2^±900 (else counted as excluded). Inputs matching the signature of the open known finding KF1 (e^x overflows, i.e. v < 5.5627e-309, or an unscaled term |c_j x^j|, |u x^5R(x)| >= 2^1020) are excluded and counted while it is listed. Non-trivial: u != 0 and v != 1. Thorough: additionally the complete ±4096-ulp neighbourhoods of the three special points for 32 coefficient sets.".into()
     }
     fn assumptions(&self) -> Vec<String> {
         vec!["1e-12 is used truncated to 384 bits (a hair stricter than the property's constant)".into()]
